@@ -92,7 +92,7 @@ func (c *Ctx) N(quick, thorough int64) int64 {
 	n := quick
 	if c.Thorough() {
 		n = thorough
-		// -scale P (per variant, from checks/Cxx.json): this variant explores P percent of the thorough case counts
+		// -tscale P (per variant, from checks/Cxx.json): this variant explores P percent of the thorough case counts
 		// (never fewer than the quick tier does); used to size the slow race-detector variants
 		if c.Scale > 0 && c.Scale < 100 {
 			if n = thorough * int64(c.Scale) / 100; n < quick {
@@ -129,7 +129,7 @@ func Main(id string, body func(c *Ctx)) {
 	flag.IntVar(&c.Shard, "shard", 0, "shard index")
 	flag.IntVar(&c.NShards, "nshards", 1, "number of shards")
 	flag.StringVar(&c.OutDir, "out", "", "output directory for summary / sidecars")
-	flag.IntVar(&c.Scale, "scale", 100, "percent of the thorough case counts to explore (thorough tier only)")
+	flag.IntVar(&c.Scale, "tscale", 100, "percent of the thorough case counts to explore (thorough tier only)")
 	flag.StringVar(&replay, "replay", "", "replay file (a violation JSON)")
 	flag.Parse()
 	// development aid only (never set by the registered commands): scale every thorough variant
@@ -170,7 +170,7 @@ func Main(id string, body func(c *Ctx)) {
 		c.caseFile = f
 	}
 	if c.Thorough() && c.Scale > 0 && c.Scale < 100 {
-		c.Note(fmt.Sprintf("this variant explores %d%% of the thorough case counts (-scale %d)", c.Scale, c.Scale))
+		c.Note(fmt.Sprintf("this variant explores %d%% of the thorough case counts (-tscale %d)", c.Scale, c.Scale))
 	}
 	body(c)
 	c.finish(true)
